@@ -12,6 +12,8 @@ JS_SNIPPETS = [
     b"{\n\n}\nfoo.bar();\n",
     b"function foo(a) {\n  x = a;\n}\np = foo(1)\nq = foo(2)\nr = foo(3)\n",
     b"a.b.c = 1;\na.b.d = 2;\ne.b.c = 3;\n",
+    # an accepted substitution removes the word a later (stale) work item is about: that candidate IS the current best
+    b"x.c\na.b.c\n",
 ]
 BRACE_SNIPPETS = [b"{\n\n}\n", b"a\n{\n \n}\nb\n", b"x{\n}y\n{\n}\n"]
 
@@ -87,7 +89,7 @@ def driver_universe(ex, ck, aborts=False, budget=None):
             explore(strategy, {"repeat": "always"}, tc, stream=strategy, replay=True,
                     max_runs=40 if quick else 300)
     for tc in small_layouts(4, alphabet=(b"{\n", b"}\n"), with_nonred=False):
-        explore("minimize-balanced", {"move": True}, tc, stream="move", replay=True,
+        explore("minimize-balanced", {"move": True}, tc, stream="move", replay=False,   # concrete: Model/PairsMove.v
                 max_runs=40 if quick else 300)
     for data in BRACE_SNIPPETS:
         for wrap in wraps:
@@ -177,6 +179,22 @@ def session_universe(ck, oracle, quick=True, strategies=("minimize", "minimize-a
                    "verdicts": step["verdict"], "clock": [], "atom": "line", "exc_class": "TestRaised", "load": True,
                    "session": [s1, s2, v1, v2, f1.hex(), f2.hex()]}
             oracle(ck, ctx, run)
+    # the testcase file cannot be OPENED for writing for a while (busy / permission), then works again
+    for k in (1, 2, 3):
+        for times in (1, 3, 5):
+            for exc_name in ("PermissionError", "BlockingIOError"):
+                for v in ("YNY" * 10, "YYNY" * 5):
+                    f0 = b"// DDBEGIN\nl1\nl2\nl3\nl4\nl5\n// DDEND\n"
+                    run = impl_session([{"strategy": "minimize", "cfg": {}, "atom": "line", "file0": f0, "verdict": v,
+                                         "open_fault": (k, times, exc_name)}])[0]
+                    if run.fault_last:
+                        ck.count("open-fault-on-last-write(skipped)")
+                        continue
+                    ck.count("open-fault")
+                    ck.nontrivial(("open-fault", k, times, exc_name, v))
+                    ctx = {"strategy": "minimize", "cfg": {}, "tc": run.loaded, "file0": f0, "verdicts": v, "clock": [],
+                           "atom": "line", "exc_class": "TestRaised", "load": True, "open_fault": [k, times, exc_name]}
+                    oracle(ck, ctx, run)
     # a transient write fault while a candidate is being written: the run fails, the last accepted version is restored
     for k in (1, 2, 3):
         for v in ("YNY" * 10, "YYY", "YNNN"):
